@@ -79,30 +79,46 @@ def onVerdict (offered : List Bytes) (limit : Nat) (s : State) : Verdict → Sta
   | .moreData c => ({ s with phase := .waitingForData }, .data c)
   | .reject => rej offered limit s
 
+/-- Row `WaitingForAuth` of the table. -/
+def stepWaitingForAuth (offered : List Bytes) (limit : Nat) (s : State) (l : Line) (v : Verdict) :
+    State × Reply :=
+  match l with
+  | .auth none _ => rej offered limit s
+  | .auth (some m) respOk =>
+    if offered.contains m ∧ respOk then onVerdict offered limit s v else rej offered limit s
+  | .begin => ({ s with phase := .closed }, .nothing)
+  | .error => rej offered limit s
+  | .data _ => (s, .error)
+  | .cancel => (s, .error)
+  | .other => (s, .error)
+
+/-- Row `WaitingForData` of the table. -/
+def stepWaitingForData (offered : List Bytes) (limit : Nat) (s : State) (l : Line) (v : Verdict) :
+    State × Reply :=
+  match l with
+  | .data respOk => if respOk then onVerdict offered limit s v else rej offered limit s
+  | .begin => ({ s with phase := .closed }, .nothing)
+  | .cancel => rej offered limit s
+  | .error => rej offered limit s
+  | .auth _ _ => (s, .error)
+  | .other => (s, .error)
+
+/-- Row `WaitingForBegin` of the table. -/
+def stepWaitingForBegin (offered : List Bytes) (limit : Nat) (s : State) (l : Line) : State × Reply :=
+  match l with
+  | .begin => ({ s with phase := .authenticated }, .nothing)
+  | .cancel => rej offered limit s
+  | .error => rej offered limit s
+  | .auth _ _ => (s, .error)
+  | .data _ => (s, .error)
+  | .other => (s, .error)
+
 /-- The server state table.  `v` is only consulted where a mechanism is asked. -/
 def step (offered : List Bytes) (limit : Nat) (s : State) (l : Line) (v : Verdict) : State × Reply :=
   match s.phase with
-  | .waitingForAuth =>
-    match l with
-    | .auth none _ => rej offered limit s
-    | .auth (some m) respOk =>
-      if offered.contains m ∧ respOk then onVerdict offered limit s v else rej offered limit s
-    | .begin => ({ s with phase := .closed }, .nothing)
-    | .error => rej offered limit s
-    | _ => (s, .error)
-  | .waitingForData =>
-    match l with
-    | .data respOk => if respOk then onVerdict offered limit s v else rej offered limit s
-    | .begin => ({ s with phase := .closed }, .nothing)
-    | .cancel => rej offered limit s
-    | .error => rej offered limit s
-    | _ => (s, .error)
-  | .waitingForBegin =>
-    match l with
-    | .begin => ({ s with phase := .authenticated }, .nothing)
-    | .cancel => rej offered limit s
-    | .error => rej offered limit s
-    | _ => (s, .error)
+  | .waitingForAuth => stepWaitingForAuth offered limit s l v
+  | .waitingForData => stepWaitingForData offered limit s l v
+  | .waitingForBegin => stepWaitingForBegin offered limit s l
   | .authenticated => (s, .nothing)
   | .closed => (s, .nothing)
 
